@@ -20,7 +20,7 @@ ASSUMPTIONS = [
     "'one common non-zero scalar' is stated division-free: accepted amplitudes are pairwise proportional to the reference entries, vanish outside the qubit subspace for qubits without a post-selection rule, and their squared norm is non-zero",
 ]
 BOUNDS = {
-    "quick": "2 qubits: every ordered pair of operations with at least one multi-qubit gate (cx/cz in both orientations, swap) plus single-gate programs, both values of allow_post_selection; 3 qubits: pairs of multi-qubit gates (incl. non-adjacent cx/cz, ccx/ccz in all target positions) and triples entangling-swap-entangling with allow_post_selection=True; programs whose converted circuit carries more than 4 photons are outside the bound",
+    "quick": "2 qubits: every ordered pair of operations with at least one multi-qubit gate (cx/cz in both orientations, swap) plus single-gate programs, both values of allow_post_selection; 3 qubits: pairs of multi-qubit gates (incl. non-adjacent cx/cz, ccx/ccz in all target positions) and triples entangling-swap-entangling with allow_post_selection=True; 4 qubits: cx/cz on qubits up to three apart in both orientations (post-selection allowed); programs whose converted circuit carries more than 4 photons are outside the bound",
     "thorough": "programs of length 3 on 2 qubits, photon bound 5",
 }
 OUTSIDE = "programs above the photon bound (heralded-only conversions of several entangling gates): covered only through C02 (wiring), C13 (each gate) and the stated composition lemma (a heralded gate that is exact and leak-free on the qubit subspace composes multiplicatively); more than 3 qubits"
@@ -220,6 +220,13 @@ def harnesses(tier):
                 if tier == "quick" and (a[0] in ("ccx",) and b[0] in ("ccx",)):
                     continue
                 cases.append(dict(n=3, program=[a, sw, b], allow=True))
+    # 4 qubits: gates on qubits three apart (the adjacency helper moves both qubits inward)
+    for g in ("cx", "cz"):
+        for qs in ((0, 3), (3, 0), (1, 3), (3, 1), (0, 2)):
+            cases.append(dict(n=4, program=[(g, qs)], allow=True))
+            cases.append(dict(n=4, program=[("h", (qs[1],)), (g, qs)], allow=True))
+    cases.append(dict(n=4, program=[("swap", (0, 3)), ("cx", (3, 1))], allow=True))
+    cases.append(dict(n=4, program=[("cx", (0, 3)), ("cz", (3, 1))], allow=True))
     if tier != "quick":
         for a in ent3:
             for b in ent3:
